@@ -141,6 +141,8 @@ structure St where
   caches : List CacheSlot := []
   pm : Portmap.Registry := []
   pmAddr : Bytes := []
+  cfg : Option Config.Cfg := none
+  cfgCpu : Nat := 1
   buckets : List (String × Bucket.TB) := []
   limiters : List (String × Bucket.RL) := []
 
@@ -176,6 +178,70 @@ def pmCmd (st : St) : List String → St × String
       ({ st with pm := r.1 }, match r.2 with | some b => toHex b | none => "none")
     | none => (st, "bad-op")
   | ["reg"] => (st, ",".intercalate (st.pm.map fun m => s!"{m.prog}:{m.vers}:{m.prot}:{m.port}"))
+  | _ => (st, "bad-op")
+
+def cfgBeh : Config.Behaviour :=
+  { tuningDefaults := Gen.cfgTuningUpdateAppliesDefaults, validatesFirst := Gen.cfgUpdateValidatesFirst,
+    policyDefaultsRL := Gen.cfgPolicyDefaultsRateLimitConfig }
+def cfgDNum (cpu : Nat) : List Int :=
+  Gen.cfgDefaults.map fun kv => if kv.1 = "MaxWorkers" then (4 * cpu : Int) else (kv.2 : Int)
+def cfgDTmo : List Int := Gen.cfgTimeoutDefaults.map fun kv => (kv.2 : Int)
+
+def parseInts (s : String) : Option (List Int) := (s.splitOn ",").mapM String.toInt?
+def parseOptInts (s : String) : Option (Option (List Int)) :=
+  if s = "nil" then some none else (parseInts s).map some
+def parseFlags (s : String) : List Bool := s.toList.map (· == '1')
+def parseOptNat (s : String) : Option (Option Nat) := if s = "nil" then some none else s.toNat?.map some
+
+def showInts (l : List Int) : String := ",".intercalate (l.map toString)
+def showCfg (c : Config.Cfg) : String :=
+  let tm := match c.tuning.timeouts with | none => "nil" | some v => showInts v
+  let rl := match c.policy.rlConfig with | none => "nil" | some v => toString v
+  s!"num={showInts c.tuning.num} tmo={tm} flags={String.ofList (c.tuning.flags.map fun b => if b then '1' else '0')} ro={b01 c.policy.readOnly} sec={b01 c.policy.secure} squash={toHex c.policy.squash} maxfs={c.policy.maxFileSize} rl={b01 c.policy.enableRL} rlcfg={rl} allowed={c.policy.allowed}"
+
+def parsePolicy : List String → Option Config.Policy
+  | [ro, sec, sq, mfs, rl, rlc, al] =>
+    match fromHex sq, mfs.toInt?, parseOptNat rlc, al.toNat? with
+    | some sq, some mfs, some rlc, some al =>
+      some { readOnly := ro == "1", secure := sec == "1", squash := sq, maxFileSize := mfs, enableRL := rl == "1",
+             rlConfig := rlc, allowed := al }
+    | _, _, _, _ => none
+  | _ => none
+
+def cfgCmd (st : St) : List String → St × String
+  | "new" :: cpu :: num :: tmo :: flags :: pol =>
+    match cpu.toNat?, parseInts num, parseOptInts tmo, parsePolicy pol with
+    | some cpu, some num, some tmo, some pol =>
+      if (squashMode pol.squash != .unknown) then
+        let fl := match parseFlags flags with
+          | a :: b :: _ :: _ :: e :: rest => a :: b :: true :: true :: e :: rest
+          | l => l
+        let t := Config.defaultTuning (cfgDNum cpu) cfgDTmo { num := num, timeouts := tmo, flags := fl }
+        let p := if pol.rlConfig = none then { pol with rlConfig := some Config.defaultRL } else pol
+        ({ st with cfg := some { tuning := t, policy := p }, cfgCpu := cpu }, "ok")
+      else (st, "error")
+    | _, _, _, _ => (st, "bad-op")
+  | ["get"] => (st, match st.cfg with | some c => showCfg c | none => "none")
+  | "tuning" :: num :: tmo :: flags :: [] =>
+    match st.cfg, parseInts num, parseOptInts tmo with
+    | some c, some num, some tmo =>
+      ({ st with cfg := some (Config.updateTuning cfgBeh (cfgDNum st.cfgCpu) cfgDTmo c
+          { num := num, timeouts := tmo, flags := parseFlags flags }) }, "ok")
+    | _, _, _ => (st, "bad-op")
+  | "policy" :: pol =>
+    match st.cfg, parsePolicy pol with
+    | some c, some pol =>
+      match Config.updatePolicy cfgBeh c pol with
+      | some c' => ({ st with cfg := some c' }, "ok")
+      | none => (st, "rejected")
+    | _, _ => (st, "bad-op")
+  | "export" :: num :: tmo :: flags :: pol =>
+    match st.cfg, parseInts num, parseOptInts tmo, parsePolicy pol with
+    | some c, some num, some tmo, some pol =>
+      let r := Config.updateExport cfgBeh (cfgDNum st.cfgCpu) cfgDTmo c
+        { tuning := { num := num, timeouts := tmo, flags := parseFlags flags }, policy := pol }
+      ({ st with cfg := some r.1 }, if r.2 then "rejected" else "ok")
+    | _, _, _, _ => (st, "bad-op")
   | _ => (st, "bad-op")
 
 def rlCmd (st : St) : List String → St × String
@@ -318,6 +384,7 @@ def step (st : St) (line : String) : St × String :=
   | "lru" :: args => lruCmd st args
   | "rl" :: args => rlCmd st args
   | "pm" :: args => pmCmd st args
+  | "cfg" :: args => cfgCmd st args
   | ["reset"] => ({}, "ok")
   | _ => (st, "bad-op")
 
